@@ -65,7 +65,7 @@ struct State {
   std::vector<BlockInfo> blocks;                    // by id (id = index)
   std::unordered_map<const void*, uint64_t> live;   // user pointer -> id (never iterated for output)
   uint64_t live_bytes = 0;
-  uint64_t t_requests[SA_MAX_TASKS] = {0}, t_live[SA_MAX_TASKS] = {0}, t_xor[SA_MAX_TASKS] = {0}, t_seq[SA_MAX_TASKS] = {0}, t_bytes[SA_MAX_TASKS] = {0};
+  uint64_t t_requests[SA_MAX_TASKS] = {0}, t_live[SA_MAX_TASKS] = {0}, t_xor[SA_MAX_TASKS] = {0}, t_seq[SA_MAX_TASKS] = {0}, t_bytes[SA_MAX_TASKS] = {0}, t_maxreq[SA_MAX_TASKS] = {0};
   OpWindow win[SA_MAX_TASKS];
   Arena arena[2];
   bool arenas_ready = false;
@@ -93,7 +93,7 @@ bool should_refuse(OpWindow& w, bool is_realloc, size_t size) {
     default: break;
   }
   if (refuse) { sa_fired[kind]++; w.refused_injected++; }
-  if (!refuse && size > S.knobs.max_request) { refuse = true; sa_fired_toolarge++; }
+  if (!refuse && size > (S.t_maxreq[TK()] ? S.t_maxreq[TK()] : S.knobs.max_request)) { refuse = true; sa_fired_toolarge++; }
   return refuse;
 }
 
@@ -184,7 +184,7 @@ void sa_reset(const SaKnobs& k) {
     else if (S.knobs.backend == BE_DIRECT) free(b.user);
     b.live = false;
   }
-  S.blocks.clear(); S.live.clear(); S.live_bytes = 0; for (int i = 0; i < SA_MAX_TASKS; i++) S.t_requests[i] = S.t_live[i] = S.t_xor[i] = S.t_seq[i] = S.t_bytes[i] = 0; S.arena_freed.clear();
+  S.blocks.clear(); S.live.clear(); S.live_bytes = 0; for (int i = 0; i < SA_MAX_TASKS; i++) S.t_requests[i] = S.t_live[i] = S.t_xor[i] = S.t_seq[i] = S.t_bytes[i] = S.t_maxreq[i] = 0; S.arena_freed.clear();
   for (auto& w : S.win) w = OpWindow();
   S.knobs = k;
   if (k.backend == BE_ARENA) {
@@ -195,7 +195,8 @@ void sa_reset(const SaKnobs& k) {
 }
 
 const SaKnobs& sa_knobs() { return S.knobs; }
-void sa_set_max_request(uint64_t n) { S.knobs.max_request = n; }
+void sa_set_max_request(uint64_t n) { S.t_maxreq[TK()] = n; }
+uint64_t sa_max_request() { uint64_t o = S.t_maxreq[TK()]; return o ? o : S.knobs.max_request; }
 
 void sa_begin(const FaultSpec& f) {
   OpWindow& w = W();
